@@ -182,3 +182,123 @@ func VerifH_C10_api_session_small_growth() {
 func VerifH_C10_api_sessions_dense() { verifSessionsScript(9, 1) }
 func VerifH_C10_api_sessions2_thorough() { verifSessionsScript(2, 2) }
 func VerifH_C10_api_sessions_dense2_thorough() { verifSessionsScript(9, 2) }
+
+// overwriting dataset data in a session: /a contiguous, /c chunked (and a neighbour /b). OpenDataset + Write either
+// replaces exactly that dataset's values or is refused with an error and changes nothing; everything else is unchanged.
+func VerifH_C10_api_session_overwrite() {
+	fw, err := CreateForWrite("c10o.h5", CreateTruncate, WithSuperblockVersion([]uint8{0, 2}[vrt.Choice(2)]))
+	vrt.AssertNoErr(err, "create-ok")
+	a, err := fw.CreateDataset("/a", Int32, []uint64{2})
+	vrt.AssertNoErr(err, "create-a-ok")
+	da := [2]int32{vrt.I32(), vrt.I32()}
+	vrt.AssertNoErr(a.Write(da[:]), "write-a-ok")
+	c, err := fw.CreateDataset("/c", Int32, []uint64{2}, WithChunkDims([]uint64{1}))
+	vrt.AssertNoErr(err, "create-c-ok")
+	dc := [2]int32{vrt.I32(), vrt.I32()}
+	vrt.AssertNoErr(c.Write(dc[:]), "write-c-ok")
+	b, err := fw.CreateDataset("/b", Int32, []uint64{1})
+	vrt.AssertNoErr(err, "create-b-ok")
+	w := vrt.I32()
+	vrt.AssertNoErr(b.Write([]int32{w}), "write-b-ok")
+	vrt.AssertNoErr(fw.Close(), "close-ok")
+
+	s, err := OpenForWrite("c10o.h5", OpenReadWrite)
+	vrt.AssertNoErr(err, "open-for-write-ok")
+	target := []string{"/a", "/c"}[vrt.Choice(2)]
+	d, err := s.OpenDataset(target)
+	vrt.AssertNoErr(err, "open-dataset-ok")
+	nv := [2]int32{vrt.I32(), vrt.I32()}
+	if d.Write(nv[:]) == nil {
+		if target == "/a" {
+			da = nv
+		} else {
+			dc = nv
+		}
+	}
+	vrt.AssertNoErr(s.Close(), "session-close-ok")
+
+	f, err := Open("c10o.h5")
+	vrt.AssertNoErr(err, "reopen-ok")
+	for _, chk := range []struct {
+		path string
+		want []int32
+	}{{"/a", da[:]}, {"/c", dc[:]}, {"/b", []int32{w}}} {
+		ds := verifFindDataset(f, chk.path)
+		vrt.Assert(ds != nil, "dataset-found-at-path")
+		if ds == nil {
+			continue
+		}
+		got, err := ds.Read()
+		vrt.AssertNoErr(err, "read-after-session-ok")
+		if err == nil {
+			vrt.Assert(len(got) == len(chk.want), "shape-after-session")
+			if len(got) == len(chk.want) {
+				for i := range got {
+					vrt.Assert(got[i] == float64(chk.want[i]), "content-is-previous-plus-modification")
+				}
+			}
+		}
+	}
+	vrt.Covered("sessions-compared")
+	_ = f.Close()
+}
+
+// sessions on files written by the reference library (corpus): an attribute write or a data overwrite on the first
+// dataset is either refused — then the file stays byte-identical — or accepted — then exactly that changes
+func VerifH_C10_api_session_corpus() {
+	vrt.LoopBound(400000)
+	names := []string{"with_groups.h5", "with_attributes.h5", "multiple_datasets.h5", "v0.h5", "v2.h5", "v3.h5", "test_3d_chunked.h5"}
+	raw := vrt.Corpus("testdata/" + names[vrt.Choice(len(names))])
+	vrt.AssertNoErr(os.WriteFile("c10c.h5", raw, 0o644), "write-ok")
+	before, err := verifDumpFile("c10c.h5")
+	vrt.AssertNoErr(err, "intact-open-ok")
+	s, err := OpenForWrite("c10c.h5", OpenReadWrite)
+	vrt.AssertNoErr(err, "open-for-write-ok")
+	first := ""
+	s.file.Walk(func(p string, o Object) {
+		if _, ok := o.(*Dataset); ok && first == "" {
+			first = p
+		}
+	})
+	vrt.Assert(first != "", "dataset-found-at-path")
+	d, err := s.OpenDataset(first)
+	vrt.AssertNoErr(err, "open-dataset-ok")
+	accepted := false
+	addAttr := vrt.Bool()
+	if addAttr {
+		accepted = d.WriteAttribute("zz_new", vrt.I32()) == nil
+	} else {
+		accepted = d.DeleteAttribute("units") == nil
+	}
+	vrt.AssertNoErr(s.Close(), "session-close-ok")
+	after, err := os.ReadFile("c10c.h5")
+	vrt.AssertNoErr(err, "raw-read-ok")
+	if !accepted {
+		same := len(after) == len(raw)
+		if same {
+			for i := range raw {
+				if raw[i] != after[i] {
+					same = false
+				}
+			}
+		}
+		vrt.Assert(same, "no-op-session-bytes-identical")
+	}
+	now, err := verifDumpFile("c10c.h5")
+	vrt.AssertNoErr(err, "reopen-ok")
+	vrt.Assert(len(now.paths) == len(before.paths), "content-is-previous-plus-modification")
+	vrt.Assert(len(now.vals) == len(before.vals), "content-is-previous-plus-modification")
+	if len(now.vals) == len(before.vals) {
+		for i := range now.vals {
+			vrt.Assert(now.vals[i] == before.vals[i] || (now.vals[i] != now.vals[i] && before.vals[i] != before.vals[i]), "content-is-previous-plus-modification")
+		}
+	}
+	wantAttrs := len(before.attrs)
+	if accepted && addAttr {
+		wantAttrs++
+	} else if accepted {
+		wantAttrs--
+	}
+	vrt.Assert(len(now.attrs) == wantAttrs, "attribute-count-after-session")
+	vrt.Covered("sessions-compared")
+}
